@@ -406,12 +406,16 @@ func orAlternatives(t *rapid.T, n *model.Node, o ScalarOpts, label string) []mod
 			alts = append(alts, model.Set(rs...))
 		case 1: // plain built-in type name
 			alts = append(alts, model.Str(rapid.SampledFrom([]string{"string", "integer", "float", "boolean", "null", n.Kind}).Draw(t, l+"tn")))
-		case 2: // rule-set of another kind
+		case 2: // rule-set of another kind (now and then pinned to the example, which is of yet another kind)
 			alts = append(alts, rapid.SampledFrom([]model.Val{
 				model.Set(model.R("type", model.Str("integer")), model.R("min", model.Num("1000"))),
 				model.Set(model.R("type", model.Str("string")), model.R("maxLength", model.Num("0"))),
 				model.Set(model.R("type", model.Str("boolean"))),
 				model.Set(model.R("type", model.Str("null"))),
+				model.Set(model.R("type", model.Str("integer")), model.R("const", model.Bool(true))),
+				model.Set(model.R("type", model.Str("boolean")), model.R("const", model.Bool(true))),
+				model.Set(model.R("type", model.Str("string")), model.R("const", model.Bool(true))),
+				model.Set(model.R("type", model.Str("float")), model.R("const", model.Bool(true))),
 			}).Draw(t, l+"other"))
 		case 3: // user type by name
 			if !o.NoRefs && len(o.Types) > 0 {
